@@ -158,8 +158,15 @@ impl<'a, R: Rng> Gen<'a, R> {
                 (0..n).map(|_| *self.pick(&['a', 'b', 'c', 'X', 'Y', '0', '9', '_']) ).collect()
             }
         } else if self.chance(0.03) && !dict().strs.is_empty() {
-            // a string literal of deserr's own source text
-            self.pick(&dict().strs).clone()
+            // a string (or character) literal of deserr's own source text - as it is, as a prefix, as a suffix or in
+            // the middle (conditions like starts_with / ends_with / contains on keys and values)
+            let d = self.pick(&dict().strs).clone();
+            match self.below(6) {
+                0 => format!("{d}x1"),
+                1 => format!("ab{d}"),
+                2 => format!("k{d}y"),
+                _ => d,
+            }
         } else if self.chance(0.03) {
             let n = 20 + self.below(40);
             (0..n).map(|_| *self.pick(&['a', 'b', 'Z', '0', '_', ' ', 'é', '日'])).collect()
